@@ -1,4 +1,5 @@
 import SqlObjVerif.Lemmas.OrmVal
+import SqlObjVerif.Lemmas.OrmValXRead
 /-!
 # C05 — cached attribute values always agree with the database row
 
@@ -255,5 +256,83 @@ example : Hist (LibStep exCfg) exCfg init
     intro s h hb o ho; simpa [ho] using hb
   refine ⟨trivial, live _ _ (by decide), trivial, live _ _ (by decide), trivial,
     fun o _ => ⟨trivial, by simp only [opRefSteps]; exact live _ _ (by decide)⟩, trivial⟩
+
+/-! ## The hand model of the value-level instance methods IS the translated source
+
+`vlib/extractors/pymain.py` translates `SQLObject.expire / sync / _SO_selectInit / _SO_loadValue / _SO_getValue`
+(and `syncUpdate`, `_SO_setValue`, `set`: C16) from /repo's `main.py` into PyMain programs on every run
+(`Extracted/PyMain.lean`); `expireX`, `syncX`, … (`Model/OrmValX.lean`) RUN those programs from
+`absW cfg i s o cv fail`, the image of instance `o` (held under handle `h`) of model state `s`, where `cv` is
+ANY Python dict standing for the pending values (`Rep`: pairwise distinct keys, sorted by creation order it is
+`o.pending`), `fail` says whether the database refuses the UPDATE, and `i : Iface` says which columns have a
+`from_python` / `to_python` validator (`i.Ok`: the model's codec is the identity for a column without one).
+`absUnit` / `absVal` read the final world back as a model state and an outcome (and are `none` when the method
+leaves `_SO_writeLock` held).  Each theorem: the translated method yields EXACTLY what the hand model's
+function yields — for all states and inputs, under the stated hypotheses only:
+* `o.cached c = none` for `c ≥ ncols` (the object has `_SO_val_` attributes only for its columns);
+* the pending keys are columns (`syncUpdate` looks them up in `sqlmeta.columns`);
+* `ncols ≠ 0` where a row is fetched (an empty result tuple is falsy), `ncols ≠ 1` for `_SO_getValue`
+  (the statement log of the model tells a one-column SELECT from a whole-row SELECT).
+Signals are ignored (no listener connected).  A semantic edit of these methods changes the translated programs
+and breaks these proofs. -/
+
+open SqlObjVerif.PyMain in
+/-- `expire()` = `opExpire` -/
+theorem C05_translated_expire_eq_model (cfg : Cfg) (i : Iface) (s : State) (h : Hnd) (o : Inst) (cv : Pend) (fail : Bool)
+    (ho : s.objs h = some o) (hattrs : ∀ c, cfg.ncols o.cls ≤ c → o.cached c = none) :
+    absUnit o.cls o.id h (expireX o.cls o.id (cfg.ncols o.cls) h (absW cfg i s o cv fail)) = some (opExpire s h) :=
+  expireX_eq cfg i s h o cv fail ho hattrs
+
+open SqlObjVerif.PyMain in
+/-- `sync()` = `opSync` (flush through the translated `syncUpdate`, SELECT, reload through the translated
+    `_SO_selectInit`, NotFound, the refused UPDATE) -/
+theorem C05_translated_sync_eq_model (cfg : Cfg) (i : Iface) (s : State) (h : Hnd) (o : Inst) (cv : Pend) (fail : Bool)
+    (ho : s.objs h = some o) (hrep : Rep cv o.pending) (hcols : ∀ e ∈ o.pending, e.1 < cfg.ncols o.cls)
+    (hattrs : ∀ c, cfg.ncols o.cls ≤ c → o.cached c = none) (hn : cfg.ncols o.cls ≠ 0) (hi : i.Ok cfg o.cls) :
+    absUnit o.cls o.id h (syncX o.cls o.id (cfg.ncols o.cls) h (absW cfg i s o cv fail)) = some (opSync cfg s h fail) :=
+  syncX_eq cfg i s h o cv fail ho hrep hcols hattrs hn hi
+
+open SqlObjVerif.PyMain in
+/-- `_SO_selectInit(row)`: the attributes become `loadRow` of the row, nothing else changes -/
+theorem C05_translated_selectInit_eq_loadRow (cfg : Cfg) (i : Iface) (s : State) (h : Hnd) (o : Inst) (cv : Pend)
+    (fail : Bool) (row : Row) (hattrs : ∀ c, cfg.ncols o.cls ≤ c → o.cached c = none) (hi : i.Ok cfg o.cls) :
+    selectInitX o.cls o.id (cfg.ncols o.cls) h (absW cfg i s o cv fail) (.row ((List.range (cfg.ncols o.cls)).map row)) =
+      .ret (absW cfg i s { o with cached := loadRow (cfg.dec o.cls) (cfg.ncols o.cls) row } cv fail) .none :=
+  selectInitX_eq cfg i s h o cv fail row hattrs hi
+
+open SqlObjVerif.PyMain in
+/-- reading column `c` of a class that caches values: `_SO_loadValue('_SO_val_<c>')` = `opRead` (cached value; else
+    SELECT, reload, the pending values put back through `to_python`, NotFound) -/
+theorem C05_translated_loadValue_eq_model (cfg : Cfg) (i : Iface) (s : State) (h : Hnd) (o : Inst) (cv : Pend)
+    (fail : Bool) (c : Col) (ho : s.objs h = some o) (hrep : Rep cv o.pending)
+    (hattrs : ∀ c, cfg.ncols o.cls ≤ c → o.cached c = none) (hc : c < cfg.ncols o.cls) (hi : i.Ok cfg o.cls)
+    (hcache : cfg.cacheValues o.cls = true) :
+    absVal o.cls o.id h (loadValueX o.cls o.id (cfg.ncols o.cls) h (absW cfg i s o cv fail) c) = some (opRead cfg s h c) :=
+  loadValueX_eq cfg i s h o cv fail c ho hrep hattrs hc hi hcache
+
+open SqlObjVerif.PyMain in
+/-- reading column `c` of a class that does not cache values: `_SO_getValue('<c>')` = `opRead` -/
+theorem C05_translated_getValue_eq_model (cfg : Cfg) (i : Iface) (s : State) (h : Hnd) (o : Inst) (cv : Pend)
+    (fail : Bool) (c : Col) (ho : s.objs h = some o) (hrep : Rep cv o.pending)
+    (hc : c < cfg.ncols o.cls) (hn1 : cfg.ncols o.cls ≠ 1) (hi : i.Ok cfg o.cls)
+    (hcache : cfg.cacheValues o.cls = false) :
+    absVal o.cls o.id h (getValueX o.cls o.id (cfg.ncols o.cls) h (absW cfg i s o cv fail) c) = some (opRead cfg s h c) :=
+  getValueX_eq cfg i s h o cv fail c ho hrep hc hn1 hi hcache
+
+open SqlObjVerif.PyMain in
+/-- the image of an instance reads back as the state it came from -/
+theorem C05_translated_image (cfg : Cfg) (i : Iface) (s : State) (h : Hnd) (o : Inst) (cv : Pend) (fail : Bool)
+    (ho : s.objs h = some o) (hrep : Rep cv o.pending) :
+    conc o.cls o.id h (absW cfg i s o cv fail) = some s :=
+  conc_absW cfg i s h o cv fail ho hrep
+
+/-- non-vacuity: in every state reachable by ANY operations the sorted pending list itself is a dict that
+    stands for it (`FlagOK.sorted`) -/
+theorem C05_translated_rep_reachable (cfg : Cfg) (s : State) (hs : AnyReach cfg s) (h : Hnd) (o : Inst)
+    (ho : s.objs h = some o) : Rep o.pending o.pending :=
+  rep_of_sorted o.pending ((anyReach_flag cfg s hs) h o ho).sorted
+
+/-- a dict in another insertion order stands for the same pending values -/
+example : Rep [(2, some 5), (0, none)] [(0, none), (2, some 5)] := ⟨by decide, by decide⟩
 
 end SqlObjVerif.OrmVal
